@@ -47,15 +47,17 @@ out.append('worktree, compiles, passes the existing tests of the touched package
 out.append('demonstration test that fails with it and passes without (verified with tools/verify_seed.sh).')
 out.append('Detection = `git -C /repo apply patch.diff`, run the property\'s quick check, `git checkout` (tools/seed_matrix.sh).')
 out.append('Every seed is also registered as a patch-kind positive control (controls/<id>/seeds.json), so each thorough run')
-out.append('re-establishes the table below. Three seeds per property: round a, round b (told to avoid the area of round a) and')
-out.append('round c (told to avoid both). Most seeds were NOT reported by the rules as they stood when the seed arrived: in')
+out.append('re-establishes the table below. Three or four seeds per property: round a, round b (told to avoid the area of round a),')
+out.append('round c (told to avoid both) and, for C01–C15, round d. Most seeds were NOT reported by the rules as they stood when the seed arrived: in')
 out.append('round a roughly half of them led to a new rule (C02.6, C03.2, C06.X, C07.3.kind-names, C10.6, C11.6, C12.6, C13.5,')
 out.append('C14.3, C16.2, C17.4, C19.6, C20.2); in round b all but C01b and C18b did; in round c 6 of 20 were already caught')
 out.append('(C01c, C03c, C09c, C10c, C11c, C12c) and 14 led to a new rule (§10.2). Three of the later rules found further')
 out.append('upstream defects (F20, F21 and, through the shapes they introduced, O5/O9). The lesson for this family: a rule set')
 out.append('derived from the mechanisms one has read is narrower than the set of mechanisms a property depends on; independent')
 out.append('breakage is what shows where — and the hit rate of existing rules on fresh seeds (about half → 2/20 → 6/20 over the')
-out.append('rounds: the first authors went for the mechanism the property text names, which the design had read; later ones had to look elsewhere) is an honest measure of how far that is from done.\n')
+out.append('rounds: the first authors went for the mechanism the property text names, which the design had read; later ones had to look elsewhere) is an honest measure of how far that is from done.')
+out.append('Round d (fifteen seeds, properties C01–C15, told to avoid the areas of a–c): 4 of 15 were reported by the rules as they stood (C01d, C04d, C06d, C10d);')
+out.append('four more after rules written for them and generalised over all like sites (C05.9, C04.7, C07.8, C12.8); seven are **not detected** and stay so in the table — see §10.9.\n')
 det = {}
 if os.path.exists(V + '/seeded/detection.json'):
     det = json.load(open(V + '/seeded/detection.json'))
